@@ -195,7 +195,7 @@ def run(ctx):
                         out = io.BytesIO()
                         iso.write_fp(out)
                     except Exception as ex:
-                        ctx.violation('mangle:edit-refused:%s' % classify(s, lvl, is_dir),
+                        ctx.violation('mangle:edit-refused:%s' % ('reserved-dot-identifier' if name in ('\x00', '\x01') else classify(s, lvl, is_dir)),
                                       'C18: the library refuses/fails on the name %r it derived from %r (level %d): %r'
                                       % (name, s, lvl, ex), {'name': s, 'level': lvl, 'derived': name})
                     iso.close()
